@@ -11,7 +11,7 @@ import shutil
 from harness import blocks, codec, common, container
 from harness.container import T0, Clock, scripted_clock
 
-CONTROL = ["allow_write", "enter", "exit", "exit_exn", "copy_switch"]
+CONTROL = ["allow_write", "enter", "exit", "exit_exn", "copy_switch", "clobber", "restore"]
 MUTATORS = ["add_block", "add_block_dup", "remove_block", "remove_absent", "replace_block", "replace_equal", "set_equal",
             "set_data3D", "set_force_and_torque", "set_force_platforms_data", "set_events", "set_emg"]
 READERS = ["blocks", "get_block_index", "get_block_type", "getitem", "data3D", "events", "emg", "has_data3D",
@@ -33,12 +33,14 @@ class Session:
         with self.t2:               # the right operand of == has been opened before: == then depends on self.t alone
             pass
         self.rng = rng
+        self.saved = None            # the TDF bytes while the file is clobbered
 
     def sha(self):
         return hashlib.sha1(open(self.path, "rb").read()).hexdigest()
 
     def types(self):
-        return [e["type"] for e in codec.parse_tdf(open(self.path, "rb").read())["entries"] if e["type"] != 0]
+        data = self.saved if self.saved is not None else open(self.path, "rb").read()
+        return [e["type"] for e in codec.parse_tdf(data)["entries"] if e["type"] != 0]
 
     def handle_code(self):
         h = getattr(self.t, "handler", None)
@@ -78,6 +80,17 @@ def perform(sess, name):
         mcall, thunk = [3], lambda: t.__exit__(None, None, None)
     elif name == "exit_exn":
         mcall, thunk = [4], lambda: t.__exit__(ValueError, ValueError("boom"), None)
+    elif name in ("clobber", "restore"):
+        # not a call on the object: somebody else replaces the file by non-TDF bytes / puts the TDF file back
+        mcall = [8] if name == "clobber" else [9]
+
+        def thunk():
+            if name == "clobber" and sess.saved is None:
+                sess.saved = open(sess.path, "rb").read()
+                open(sess.path, "wb").write(b"this is not a TDF file " * (1 + sess.rng.randrange(300)))
+            elif name == "restore" and sess.saved is not None:
+                open(sess.path, "wb").write(sess.saved)
+                sess.saved = None
     elif name == "copy_switch":
         # t = t.copy(path): the session goes on with the object copy() returned (and with the copied file)
         sess.ncopy += 1
@@ -156,9 +169,24 @@ def perform(sess, name):
         return mcall, True, common.exc_info(e)
 
 
+def track(inside, valid, name):
+    """(inside, valid) after the call, as the property text has it: a context is only entered on a TDF file"""
+    if name == "clobber":
+        return inside, False
+    if name == "restore":
+        return inside, True
+    if name == "enter":
+        return valid, valid
+    if name in ("exit", "exit_exn", "copy_switch"):
+        return False, valid
+    return inside, valid
+
+
 def enabled(inside, name):
     if name == "copy_switch":
         return True
+    if name in ("clobber", "restore"):
+        return not inside
     if name == "enter":
         return not inside
     if name in ("exit", "exit_exn"):
@@ -186,14 +214,11 @@ def run_sequence(chk, work, rng, idx, seq):
 
 
 def well_bracketed(seq, inside0=False):
-    inside = inside0
+    inside, valid = inside0, True
     for name in seq:
         if not enabled(inside, name):
             return False
-        if name == "enter":
-            inside = True
-        elif name in ("exit", "exit_exn", "copy_switch"):
-            inside = False
+        inside, valid = track(inside, valid, name)
     return True
 
 
@@ -203,13 +228,21 @@ def judge(chk, seq, recs, mres):
     write_ctx = False        # harness-side reference of "inside a context entered after allow_write"
     allowed = False
     inside = False
+    valid = True             # the file is a TDF file (clobber / restore)
     for j, (rec, m) in enumerate(zip(recs, mres)):
         name, raised, changed, hcode, ins, exc, other_ok = rec
         what = {"sequence": seq, "step": j, "call": name, "exception": exc}
         in_wctx = inside and write_ctx
         # ---- oracle on the implementation alone
         found = None
-        if changed and not (name in MUTATORS and in_wctx):
+        auto_reader = name in READERS and name not in PLAIN and name != "eq"
+        if name in ("clobber", "restore"):
+            pass                      # somebody else's write, not the object's
+        elif not valid and not inside and (name == "enter" or auto_reader) and not raised:
+            found = "the file is not a TDF file, yet %s did not raise" % name
+        elif not valid and not inside and (name == "enter" or auto_reader) and (ins or hcode in (1, 2)):
+            found = "%s was refused (not a TDF file) but left the object %s" % (name, "inside a context" if ins else "with an open handle")
+        elif changed and not (name in MUTATORS and in_wctx):
             found = "the file's bytes changed by %s %s" % (name, "outside a write-enabled context" if name in MUTATORS else "(not a mutator)")
         elif name in MUTATORS and not in_wctx and not raised:
             found = "%s did not raise outside a write-enabled context" % name
@@ -225,8 +258,10 @@ def judge(chk, seq, recs, mres):
         mchanged = mdisk != disk
         disk = mdisk
         diff = None
-        if name in MUTATORS and raised != mraised:
+        if (name in MUTATORS or name == "enter" or (mraised and not raised)) and raised != mraised:
             diff = "raised=%r, Access.a_step says %r (%s)" % (raised, mraised, exc)
+        elif name in ("clobber", "restore"):
+            pass
         elif changed != mchanged:
             diff = "bytes changed=%r, Access.a_step says %r" % (changed, mchanged)
         elif hcode != mh:
@@ -240,6 +275,12 @@ def judge(chk, seq, recs, mres):
         # reference bookkeeping (independent of the model: straight from the property text)
         if name == "allow_write":
             allowed = True
+        elif name == "clobber":
+            valid = False
+        elif name == "restore":
+            valid = True
+        elif name == "enter" and not valid:
+            inside, write_ctx, allowed = False, False, False         # refused: the context is left again, permission gone
         elif name == "enter":
             inside, write_ctx = True, allowed
         elif name in ("exit", "exit_exn", "copy_switch"):
@@ -267,7 +308,9 @@ def run(chk):
     prefixes = [[], ["allow_write"], ["enter"], ["allow_write", "enter"], ["allow_write", "enter", "exit", "enter"],
                 ["allow_write", "enter", "exit_exn"], ["allow_write", "enter", "exit_exn", "enter"], ["enter", "allow_write"],
                 ["allow_write", "has_events"], ["allow_write", "enter", "add_block", "exit"],
-                ["allow_write", "copy_switch"], ["allow_write", "enter", "copy_switch"], ["allow_write", "enter", "add_block", "copy_switch", "enter"]]
+                ["allow_write", "copy_switch"], ["allow_write", "enter", "copy_switch"], ["allow_write", "enter", "add_block", "copy_switch", "enter"],
+                ["clobber"], ["enter", "exit", "clobber"], ["allow_write", "clobber", "enter"], ["clobber", "has_events", "restore"],
+                ["allow_write", "clobber", "blocks", "restore", "enter"]]
     L = 2 if chk.tier == "quick" else 3
     seqs = []
     for p in prefixes:
@@ -280,7 +323,7 @@ def run(chk):
                     seqs.append(s)
     nrand = 300 if chk.tier == "quick" else 4000
     for _ in range(nrand):
-        s, inside = [], False
+        s, inside, valid = [], False, True
         for _ in range(rng.randrange(3, 13)):
             r = rng.random()
             if r < 0.35:
@@ -290,19 +333,16 @@ def run(chk):
             else:
                 name = rng.choice(READERS)
             s.append(name)
-            if name == "enter":
-                inside = True
-            elif name in ("exit", "exit_exn", "copy_switch"):
-                inside = False
+            inside, valid = track(inside, valid, name)
         seqs.append(s)
     chk.extra["exhaustive_tail_length"] = L
     chk.extra["prefix_modes"] = len(prefixes)
     chk.rule = ("call sequences on a Tdf object over a file holding one block: every tail of length <= L (stated in "
-                "exhaustive_tail_length) over the 31-call alphabet {allow_write, enter, exit, exit-by-exception, continue with the object copy() returns} + 12 mutator "
-                "requests (add valid/duplicate, remove present/absent, replace with another / with equal content, the five setters, a setter with equal content) + 14 readers, after each of 13 "
+                "exhaustive_tail_length) over the 33-call alphabet {allow_write, enter, exit, exit-by-exception, continue with the object copy() returns, somebody replaces the file by non-TDF bytes / puts it back (only while no context is open)} + 12 mutator "
+                "requests (add valid/duplicate, remove present/absent, replace with another / with equal content, the five setters, a setter with equal content) + 14 readers, after each of 18 "
                 "prefix modes (no context; allow_write only; read-only context; write context; re-entered after a write context; "
                 "after exit by exception; re-entered after that; allow_write inside a read-only context; allow_write consumed by "
-                "a reader; after a successful write session; on a copy taken with the permission pending, taken inside a write context, and entered after that), plus random sequences of 3-12 calls; observed after each call: "
+                "a reader; after a successful write session; on a copy taken with the permission pending, taken inside a write context, and entered after that; with the file clobbered — before any context, after one, with the permission pending, after a refused reader and restored, after a refused reader, restored and entered), plus random sequences of 3-12 calls; observed after each call: "
                 "raised? (mutators), bytes changed?, handler state, _inside_context, the == operand's file; non-trivial = contains "
                 "a mutator")
     results = []
